@@ -43,6 +43,14 @@ def lowd(a, n, k=0):
     # sensitive to the LAST digits of an integer argument (an int64 id, a nanosecond time stamp): a literal
     # that went through a float on its way loses them above 2**53
     return a * 0 + (n % 1000) + 7 * (k % 1000)
+_count = [0]
+def nxt(a):
+    # order-sensitive: every call returns the next number (Python evaluates positional arguments, then keyword
+    # arguments, left to right)
+    _count[0] += 1
+    return a * 0 + _count[0]
+def comb(p, b=0):
+    return p - b
 def tcode(a, *vals, **kw):
     # tells apart literals that are == but of different type (1, 1.0, True)
     codes = {'bool': 2, 'int': 3, 'float': 5, 'str': 7, 'NoneType': 11}
@@ -183,7 +191,11 @@ def gen(rng, tier):
               "-(x + 1)", "add3(x, c=z)", "pick(x, which='second', other=z)", "1.5 * x", "x == z", "(x + 1) ** 2", "-x * z",
               "pick(x, which='second', other=shadowed)", "pick(z, other=shadowed, which='second')",
               "add3(x, c=pick(z, which='second', other=shadowed))", "pick(x + z, which='second', other=shadowed) + w",
-              "lowd(x, 9007199254740993)", "lowd(z, 1700000000123456789, k=9007199254740993)"]:
+              "lowd(x, 9007199254740993)", "lowd(z, 1700000000123456789, k=9007199254740993)",
+              # argument evaluation order: positional before keyword, left to right (the difference of two successive
+              # counter values is -1 whatever the counter was)
+              "comb(nxt(x), b=nxt(z))", "comb(nxt(x), b=nxt(x))", "add3(comb(nxt(x), b=nxt(z)), c=1)",
+              "comb(nxt(x) + 0, b=nxt(z) * 1)"]:
         cases.append({"expr": e, "src": e, "wrapper": "I(%s)", "frame": fr_cache[0], "kind": "fixed"})
     return cases
 
@@ -199,13 +211,13 @@ def _formula(c, src=None):
 def _extra():
     ns = {}
     exec(USER, ns)
-    return {k: v for k, v in ns.items() if k in ("add3", "pick", "twice", "tcode", "slen", "wsum", "lib", "lowd")} | {"shadowed": 3.0}
+    return {k: v for k, v in ns.items() if k in ("add3", "pick", "twice", "tcode", "slen", "wsum", "lib", "lowd", "nxt", "comb")} | {"shadowed": 3.0}
 
 
 def model_cmd(c):
     import core
     return core.sshow(["c12", _formula(c), dm.frame_sexp(c["frame"]), "drop",
-                       [["add3", ["opaque"]], ["pick", ["opaque"]], ["twice", ["opaque"]], ["tcode", ["opaque"]], ["slen", ["opaque"]], ["wsum", ["opaque"]], ["lib", ["opaque"]], ["lowd", ["opaque"]], ["shadowed", ["opaque"]]]])
+                       [["add3", ["opaque"]], ["pick", ["opaque"]], ["twice", ["opaque"]], ["tcode", ["opaque"]], ["slen", ["opaque"]], ["wsum", ["opaque"]], ["lib", ["opaque"]], ["lowd", ["opaque"]], ["shadowed", ["opaque"]], ["nxt", ["opaque"]], ["comb", ["opaque"]]]])
 
 
 def impl_obs(c):
